@@ -679,7 +679,7 @@ func maxPerField(m map[string]int) int {
 // ---------------------------------------------------------------- streams
 
 func (d *driver) blockStreams(thorough bool) {
-	nB, nU, nP, nA, nW, nHeavy := 100, 120, 70, 50, 12, 1
+	nB, nU, nP, nA, nW, nHeavy := 120, 150, 90, 60, 16, 2
 	if thorough {
 		nB, nU, nP, nA, nW, nHeavy = 1200, 2000, 900, 600, 120, 12
 	}
